@@ -36,6 +36,10 @@ def script_spec(engine, gtype, policy, n, seed=11, variant=None):
     if variant == "units":
         sc["units"] = ["µm", "s", "nmol"]
         sc["system"]["units"] = ["µm", "s", "molecule"]
+    elif variant == "units2":
+        # script units differing from the default in the space AND the time unit (the system keeps its own)
+        sc["units"] = ["nm", "ms", "molecule"]
+        sc["system"]["units"] = ["µm", "s", "molecule"]
     elif variant == "species-order":
         # the same network with its species listed in the opposite order (the PREVIOUS simulation uses the listed order)
         sy = sc["system"]
@@ -199,6 +203,16 @@ def check_schedule(case):
     case.pop("_ret_mismatch", None)
     engine, gtype, policy, n = case["engine"], case["gtype"], case["policy"], case["n"]
     sc = script_spec(engine, gtype, policy, n)
+    dt = case.get("dt")
+    if dt and engine != "gillespie":
+        # a time step that is NOT a dyadic fraction: t0 + k*dt and k-fold addition of dt then differ in the last bit, so a
+        # clock recomputed per driver call (per batch, per run slice) shows as schedule dependence
+        sc["time_step"] = dt
+        sc["t_sample"] = [0, 1.2 * dt, 3.2 * dt]
+        sc["t_max"] = (n - 1) * dt + 0.4 * dt
+        sc["interval"] = 1.6 * dt
+    else:
+        dt = 0.25
     base = get_baseline(sc, engine)
     if base[0] != "ok":
         return [("C08:baseline:%s" % base[0], str(base[1]))]
@@ -216,7 +230,7 @@ def check_schedule(case):
         if pr:
             pr.clear()
         e.setup(script)
-        log, (t, d) = drive(e, ops, pr, n, fixed_dt=0.25 if engine != "gillespie" else None)
+        log, (t, d) = drive(e, ops, pr, n, fixed_dt=dt if engine != "gillespie" else None)
         e.finalize()
     except Exception as ex:
         return [("C08:schedule:unexpected-exception", "%s: %s" % (type(ex).__name__, ex))]
@@ -271,7 +285,12 @@ def check_history(case):
     out = []
     prev, this = case["prev"], tuple(case["this"])
     n = 4
-    sc = script_spec(this[0], this[1], case["policy"], n, variant=case.get("variant"))
+    var = case.get("variant")
+    # "units-after-default" / "default-after-units": the previous simulation (possibly on the same engine object) was
+    # written in another units system than this one
+    this_var = {"units-after-default": "units2", "default-after-units": None}.get(var, var)
+    prev_var = {"units-after-default": None, "default-after-units": "units2"}.get(var, var)
+    sc = script_spec(this[0], this[1], case["policy"], n, variant=this_var)
     base = get_baseline(sc, this[0])
     if base[0] != "ok":
         return [("C08:baseline:%s" % base[0], str(base[1]))]
@@ -281,7 +300,7 @@ def check_history(case):
         e_prev = None
         if prev is not None:
             prev = tuple(prev)
-            psc = script_spec(prev[0], prev[1], "on_iteration", 3, seed=5, variant=case.get("variant"))
+            psc = script_spec(prev[0], prev[1], "on_iteration", 3, seed=5, variant=prev_var)
             if case.get("variant") == "redist":
                 psc["system"]["state"] = psc["system"]["state"][:2] + [3.25, 7.0]      # a different number of large entries
             if case.get("variant") == "bc" and psc["system"]["space"]["type"] == "grid":
@@ -779,6 +798,20 @@ def gen_cases(tier, seed0):
     for (e, g, p) in scripts:
         for ops in sch:
             cases.append({"sub": "schedule", "engine": e, "gtype": g, "policy": p, "n": n, "ops": ops})
+    # the same schedules with a non-dyadic time step (0.1) on the fixed-step engines
+    # (7 iterations: for fewer, k-fold addition, k*dt and t0 + j*dt coincide for every partition and every step tried)
+    nd = []
+    sch_nd = schedules(7, ops=("I", "N2", "N3", "N5"))
+    for (e, g) in KINDS:
+        if e == "gillespie":
+            continue
+        for p in POLICIES:
+            if p == "no_sampling" and tier == "quick":
+                continue
+            for dtv in (0.1, 0.3):
+                for ops in sch_nd:
+                    nd.append({"sub": "schedule", "engine": e, "gtype": g, "policy": p, "n": 7, "ops": ops, "dt": dtv})
+    cases += nd
     nsch = len(sch)
     n7 = []
     if tier == "thorough":
@@ -808,6 +841,7 @@ def gen_cases(tier, seed0):
     for (e, g) in [k for k in KINDS if k[0] != "gillespie"]:
         for ops in (["N999", "N1", "N1000", "N1001"], ["N1001", "N2000"], ["N2500", "I", "N500"], ["I", "N3000"], ["N1500", "N1500"]):
             big.append({"sub": "schedule", "engine": e, "gtype": g, "policy": "on_t_sample", "n": 3001, "ops": ops})
+            big.append({"sub": "schedule", "engine": e, "gtype": g, "policy": "on_t_sample", "n": 3001, "ops": ops, "dt": 0.1})
     cases += big
     hist = []
     for prev in [None] + [list(k) for k in KINDS]:
@@ -819,8 +853,10 @@ def gen_cases(tier, seed0):
                     if prev is None and not fin:
                         continue
                     for pol in (("on_t_sample", "on_iteration") if tier == "thorough" else ("on_t_sample",)):
-                        for var in (None, "units", "redist", "bc", "species-order", "denormal", "geometry"):
+                        for var in (None, "units", "redist", "bc", "species-order", "denormal", "geometry", "units-after-default", "default-after-units"):
                             if var == "denormal" and this[0] != "euler":
+                                continue
+                            if var in ("units-after-default", "default-after-units") and prev is None:
                                 continue
                             c = {"sub": "history", "prev": prev, "this": list(this), "same_object": same, "finalize_prev": fin, "policy": pol}
                             if var:
@@ -877,11 +913,12 @@ def gen_cases(tier, seed0):
     sizes = [("driver schedules: all %d ways to consume a %d-iteration run with iterate / iterate_n(1..3) / run(0) / clock-scripted "
               "run slices of 1..3 iterations / run-to-completion x %d scripts (engines x space types x policies)" % (nsch, n, len(scripts)),
               nsch * len(scripts)),
+             ("non-dyadic time steps {0.1, 0.3} (k-fold addition, k*dt and t0 + j*dt differ in the last bit from the 5th step on): all %d ways to consume a 7-iteration run with iterate / iterate_n(2, 3, 5) x 4 fixed-step kinds x policies" % len(sch_nd), len(nd)),
              ("driver schedules of a 7-iteration run (%d each) x 3 scripts" % (len(n7) // 3 if n7 else 0), len(n7)),
              ("iterate_n(0) inserted at every position of every schedule of a 2-iteration run x 6 kinds", len(n0)),
-             ("large batches: 5 schedules of iterate_n(k) with k up to 3000 on a 3001-iteration run x 4 fixed-step kinds: each batch advances exactly k steps", len(big)),
+             ("large batches: 5 schedules of iterate_n(k) with k up to 3000 on a 3001-iteration run x 4 fixed-step kinds x time steps {0.25, 0.1}: each batch advances exactly k steps", len(big)),
              ("get_output() inserted at every later position of every schedule (iterate / iterate_n(2) / run(0) / run-to-completion) of a 3-iteration run x 6 kinds", len(peek)),
-             ("process histories: (previous kind or none) x this kind x same/new object x previous finalized or not x {default, non-default output units, redistributed real-valued state, other boundary setting, species order, denormal amounts, other geometry}, 3 repetitions of the same script object", len(hist)),
+             ("process histories: (previous kind or none) x this kind x same/new object x previous finalized or not x {default, non-default output units, redistributed real-valued state, other boundary setting, species order, denormal amounts, other geometry, previous script in another units system (both directions)}, 3 repetitions of the same script object", len(hist)),
              ("seeds: rng_seed=None drawn under random.seed(r), stored script reproduces, neighbour seed differs (stochastic) / "
               "does not (Euler): 24 scripts x seed window", len(seeds)),
              ("explicitly given seeds {0, 1, 2^31-1, 2^31, 2^32-1} x 6 kinds: seed kept, same description twice => same trajectory", len(given)),
